@@ -1373,7 +1373,11 @@ def run_extreme(ctx, env, n):
         ctx.count('extreme:species-share:' + c['share'])
         if c['zeros']:
             ctx.count('extreme:exact-zero-rates')
-    ctx.extra['extreme_stream_problems'] = run_point_cases(ctx, env, cases, 'extreme')
+    _LIMIT[0] = WIDE_LIMIT          # these tables are wide: the known non-terminating lsq_linear case may occur
+    try:
+        ctx.extra['extreme_stream_problems'] = run_point_cases(ctx, env, cases, 'extreme')
+    finally:
+        _LIMIT[0] = CALL_LIMIT
 
 
 # ---------------------------------------------------------------------------------------------------------------
